@@ -119,7 +119,18 @@ fn check(sim: &Sim) -> Result<(usize, usize), Bad> {
                         .0
                         .keys()
                         .any(|k| k.starts_with("entitlement_emptied:") && !sim.model.cas.contains_key(&k["entitlement_emptied:".len()..]));
-                    let key = if deleted_with_pending { "deleted-ca-with-pending-class-removal" } else { "no-active-child-key" };
+                    // a child that lost its whole entitlement here and then removed
+                    // this parent before its "revoke keys of the removed class" task ran
+                    let left_with_pending = pm.children.keys().any(|c| {
+                        sim.flags.has(&format!("entitlement_emptied:{c}")) && sim.model.cas.get(c).map(|m| !m.parents.contains(parent)).unwrap_or(false)
+                    });
+                    let key = if deleted_with_pending {
+                        "deleted-ca-with-pending-class-removal"
+                    } else if left_with_pending {
+                        "parent-removed-with-pending-class-removal"
+                    } else {
+                        "no-active-child-key"
+                    };
                     return Err(bad(
                         "c03-stale-child-cert",
                         key,
